@@ -314,12 +314,12 @@ InitCodec == \E S \in SUBSET U : cur = S /\ blk = [h \in 1..NH |-> None]
 SpecCodec == InitCodec /\ [][NextOf(CodecActs)]_allvars
 SpecBlock == InitWith(NH) /\ [][NextOf(BlockActs)]_allvars
 
-(* list forms: any two blocks of one kind (block numbers 0..2), one step *)
+(* list forms: any two blocks of one kind (block numbers 0..1; empty, 1-2 members or full), one step *)
 ListActs == {a \in BlockActs : a.op = "lgetn"}
 InitList == \E k \in {"big", "tip"} :
               \E f \in [1..NH -> [ok : {TRUE}, kind : {k},
                                   start : {[i \in 1..SD |-> IF i = 1 THEN x ELSE 0] : x \in 0..(TopLim - 1)},
-                                  S : SUBSET Bits]] :
+                                  S : {x \in SUBSET Bits : Card(x) <= 2 \/ x = Bits}]] :
                 cur = {} /\ blk = f /\ last = [a |-> [op |-> "init", nh |-> NH], r |-> 0]
 SpecList == InitList /\ [][NextOf(ListActs)]_allvars
 
